@@ -5,6 +5,8 @@ import (
 	"go/ast"
 	"go/printer"
 	"go/token"
+	"os"
+	"path/filepath"
 	"regexp"
 	"strconv"
 	"strings"
@@ -175,8 +177,185 @@ func init() {
 			"| ESkip                      (* touches neither the identity of cmd nor its SysProcAttr *)\n" +
 			"| EIf (c : econd) (th el : list estmt)\n" +
 			"| EReturn.                   (* return cmd *)\n" +
-			"Definition exec_command_prog : list estmt :=\n  " + prog + ".\n"
+			"Definition exec_command_prog : list estmt :=\n  " + prog + ".\n" +
+			c30ActionDeadline()
 	}
+}
+
+// actionDeadline (property C30, second part): where the deadline handed to ExecWithTimeout comes from.
+//   - src/parse/asp/targets.go sizeAndTimeout: translated statement by statement into `size_and_timeout_prog : list dstmt`
+//     (a type switch on the timeout argument with the cases pyInt and pyString, `if t > 0`, `if size != nil`, and returns of
+//     one of the four expressions time.Duration(t) * time.<Unit>, mustSize(s, string(t)).Timeout, size.Timeout,
+//     defaultTimeout) - the ORDER of the statements is what decides the precedence and is not pinned here: the proofs
+//     evaluate the program;
+//   - createTarget: the two calls `target.BuildTimeout = sizeAndTimeout(s, size, args[<idx>], s.state.Config.<X>.Timeout)` and
+//     `target.Test.Timeout = ...`, and `size = mustSize(s, name)` under `args[sizeBuildRuleArgIdx] != None`;
+//   - src/build/build_step.go and src/test/test_step.go: the timeout argument of the ExecWithTimeoutShell* calls.
+//
+// Anything else fails closed.
+func c30ActionDeadline() string {
+	const file = "src/parse/asp/targets.go"
+	fset, f := parseFile(file)
+	show := func(n ast.Node) string {
+		var b bytes.Buffer
+		if err := printer.Fprint(&b, fset, n); err != nil {
+			failShape("%s: cannot print a node: %v", file, err)
+		}
+		return strings.Join(strings.Fields(b.String()), " ")
+	}
+	fd := findFunc(f, "", "sizeAndTimeout")
+	if sig := show(fd.Type); sig != "func(s *scope, size *core.Size, timeout pyObject, defaultTimeout cli.Duration) time.Duration" {
+		failShape("%s: sizeAndTimeout has signature %q", file, sig)
+	}
+	unit := ""
+	// ctx: "" outside the type switch, "int" / "str" inside the respective case (the type of t)
+	var block func(list []ast.Stmt, ctx string) string
+	var stmt func(st ast.Stmt, ctx string) string
+	block = func(list []ast.Stmt, ctx string) string {
+		items := make([]string, len(list))
+		for i, st := range list {
+			items[i] = stmt(st, ctx)
+		}
+		return "[" + strings.Join(items, "; ") + "]"
+	}
+	stmt = func(st ast.Stmt, ctx string) string {
+		text := show(st)
+		switch s := st.(type) {
+		case *ast.ReturnStmt:
+			if len(s.Results) != 1 {
+				failShape("%s: sizeAndTimeout: %q", file, text)
+			}
+			e := show(s.Results[0])
+			if m := regexp.MustCompile(`^time\.Duration\(t\) \* time\.(\w+)$`).FindStringSubmatch(e); m != nil && ctx == "int" {
+				if unit != "" && unit != m[1] {
+					failShape("%s: sizeAndTimeout uses two different units for the explicit timeout", file)
+				}
+				unit = m[1]
+				return "DReturn DExplicit"
+			}
+			switch {
+			case e == "time.Duration(mustSize(s, string(t)).Timeout)" && ctx == "str":
+				return "DReturn DNamed"
+			case e == "time.Duration(size.Timeout)":
+				return "DReturn DSize"
+			case e == "time.Duration(defaultTimeout)":
+				return "DReturn DDefault"
+			}
+			failShape("%s: sizeAndTimeout returns %q (inside case %q)", file, e, ctx)
+		case *ast.IfStmt:
+			if s.Init != nil || s.Else != nil {
+				failShape("%s: sizeAndTimeout: if with init or else: %q", file, text)
+			}
+			switch cond := show(s.Cond); {
+			case cond == "t > 0" && ctx == "int":
+				return "DIf DPositive " + block(s.Body.List, ctx)
+			case cond == "size != nil":
+				return "DIf DHasSize " + block(s.Body.List, ctx)
+			}
+			failShape("%s: sizeAndTimeout: condition of %q is not one the translator knows", file, text)
+		case *ast.TypeSwitchStmt:
+			if ctx != "" || s.Init != nil || show(s.Assign) != "t := timeout.(type)" {
+				failShape("%s: sizeAndTimeout: type switch %q", file, text)
+			}
+			cases := map[string]string{"pyInt": "[]", "pyString": "[]"}
+			seen := map[string]bool{}
+			for _, c := range s.Body.List {
+				cc := c.(*ast.CaseClause)
+				if len(cc.List) != 1 {
+					failShape("%s: sizeAndTimeout: case clause with %d types (a default clause or a list)", file, len(cc.List))
+				}
+				ty := show(cc.List[0])
+				if _, ok := cases[ty]; !ok || seen[ty] {
+					failShape("%s: sizeAndTimeout: case %s", file, ty)
+				}
+				seen[ty] = true
+				cases[ty] = block(cc.Body, map[string]string{"pyInt": "int", "pyString": "str"}[ty])
+			}
+			return "DSwitch " + cases["pyInt"] + " " + cases["pyString"]
+		}
+		failShape("%s: sizeAndTimeout: statement %q is not one the translator knows", file, text)
+		return ""
+	}
+	prog := block(fd.Body.List, "")
+	unitNs := map[string]string{"Nanosecond": "1", "Microsecond": "1000", "Millisecond": "1000000", "Second": "1000000000", "Minute": "60000000000", "Hour": "3600000000000"}
+	if unit == "" {
+		unit = "Second" // no statement returns the explicit timeout any more: the proofs will say so
+	}
+	if _, ok := unitNs[unit]; !ok {
+		failShape("%s: sizeAndTimeout: unknown unit time.%s", file, unit)
+	}
+
+	// createTarget: the two calls and the size lookup
+	ct := show(findFunc(f, "", "createTarget").Body)
+	call := func(lhs string) (string, string) {
+		re := regexp.MustCompile(regexp.QuoteMeta(lhs) + ` = sizeAndTimeout\(s, size, args\[(\w+)\], s\.state\.Config\.(\w+)\.Timeout\)`)
+		all := re.FindAllStringSubmatch(ct, -1)
+		if len(all) != 1 || strings.Count(ct, lhs+" =") != 1 {
+			failShape("%s: createTarget: expected exactly one assignment `%s = sizeAndTimeout(s, size, args[...], s.state.Config.X.Timeout)`", file, lhs)
+		}
+		arg, ok := map[string]string{"buildTimeoutBuildRuleArgIdx": "ABuildTimeout", "testTimeoutBuildRuleArgIdx": "ATestTimeout"}[all[0][1]]
+		if !ok {
+			failShape("%s: createTarget: %s is computed from args[%s]", file, lhs, all[0][1])
+		}
+		dflt, ok := map[string]string{"Build": "CfgBuildTimeout", "Test": "CfgTestTimeout"}[all[0][2]]
+		if !ok {
+			failShape("%s: createTarget: %s defaults to Config.%s.Timeout", file, lhs, all[0][2])
+		}
+		return arg, dflt
+	}
+	if strings.Count(ct, "sizeAndTimeout(") != 2 {
+		failShape("%s: createTarget calls sizeAndTimeout %d times", file, strings.Count(ct, "sizeAndTimeout("))
+	}
+	bArg, bDef := call("target.BuildTimeout")
+	tArg, tDef := call("target.Test.Timeout")
+	if !strings.Contains(ct, "var size *core.Size if args[sizeBuildRuleArgIdx] != None { name := string(args[sizeBuildRuleArgIdx].(pyString)) size = mustSize(s, name) target.AddLabel(name) }") ||
+		strings.Count(ct, "size =") != 1 || strings.Count(ct, "&size") != 0 {
+		failShape("%s: createTarget: the declared size is no longer looked up by `if args[sizeBuildRuleArgIdx] != None { ... size = mustSize(s, name) ... }` alone", file)
+	}
+	ms := show(findFunc(f, "", "mustSize").Body)
+	if ms != `{ size, present := s.state.Config.Size[name] s.Assert(present, "Unknown size %s", name) return size }` {
+		failShape("%s: body of mustSize has an unrecognised shape: %s", file, ms)
+	}
+
+	// the consumers: the timeout argument (4th) of the executor calls
+	consumer := func(rel, fn, want string) {
+		data := c30ReadRepoFile(rel)
+		re := regexp.MustCompile(`state\.ProcessExecutor\.` + fn + `\(target, [^,]+, [^,]+, ([^,]+),`)
+		all := re.FindAllStringSubmatch(data, -1)
+		if len(all) != 1 || strings.TrimSpace(all[0][1]) != want {
+			failShape("%s: expected exactly one call state.ProcessExecutor.%s(target, dir, env, %s, ...), found %v", rel, fn, want, all)
+		}
+	}
+	consumer("src/build/build_step.go", "ExecWithTimeoutShell", "target.BuildTimeout")
+	consumer("src/test/test_step.go", "ExecWithTimeoutShellStdStreams", "target.Test.Timeout")
+
+	return "(* ---- where the deadline comes from: sizeAndTimeout (src/parse/asp/targets.go), statement by statement ---- *)\n" +
+		"Inductive dexpr :=\n" +
+		"| DExplicit   (* time.Duration(t) * time.<Unit>, t the pyInt timeout argument *)\n" +
+		"| DNamed      (* mustSize(s, string(t)).Timeout, t the pyString timeout argument *)\n" +
+		"| DSize       (* size.Timeout *)\n" +
+		"| DDefault.   (* defaultTimeout *)\n" +
+		"Inductive dcond := DPositive (* t > 0 *) | DHasSize (* size != nil *).\n" +
+		"Inductive dstmt :=\n" +
+		"| DReturn (e : dexpr)\n" +
+		"| DIf (c : dcond) (th : list dstmt)\n" +
+		"| DSwitch (on_int on_str : list dstmt).   (* switch t := timeout.(type) { case pyInt: ... case pyString: ... }; any other type matches no case *)\n" +
+		"Definition size_and_timeout_prog : list dstmt :=\n  " + prog + ".\n" +
+		"(* the unit of an explicit integer timeout, in nanoseconds (time." + unit + ") *)\n" +
+		"Definition explicit_unit_ns : N := " + unitNs[unit] + "%N.\n" +
+		"(* createTarget: the rule argument and the configured default each deadline is computed from *)\n" +
+		"Inductive darg := ABuildTimeout | ATestTimeout.\n" +
+		"Inductive ddefault := CfgBuildTimeout | CfgTestTimeout.\n" +
+		"Definition build_deadline_call : darg * ddefault := (" + bArg + ", " + bDef + ").\n" +
+		"Definition test_deadline_call : darg * ddefault := (" + tArg + ", " + tDef + ").\n"
+}
+
+func c30ReadRepoFile(rel string) string {
+	data, err := os.ReadFile(filepath.Join(repo, rel))
+	if err != nil {
+		failShape("cannot read %s: %v", rel, err)
+	}
+	return string(data)
 }
 
 // execCommandProgram translates the body of ExecCommand into a term of type `list estmt` (see the generated file) and
